@@ -1,6 +1,8 @@
 package props
 
 import (
+	"net/http"
+	"context"
 	"encoding/json"
 	"fmt"
 	"net"
@@ -479,6 +481,57 @@ func (c *c03) callback(ch *kernel.Chooser) string {
 	return desc
 }
 
+// concurrentCallbacks: the callbacks of two completed authorization requests are served at the same time, interleaved
+// by the seeded scheduler at every storage call and wherever the provider writes body bytes (a slow user agent). Each
+// user agent must be sent to the redirect URI of its own request.
+func (c *c03) concurrentCallbacks(ch *kernel.Chooser) string {
+	w := c.w
+	var formPost, others []string
+	for _, id := range c.ids {
+		if a := w.Store.AuthReqSnapshot(id); a != nil {
+			if a.ResponseMode == oidc.ResponseModeFormPost {
+				formPost = append(formPost, id)
+			} else {
+				others = append(others, id)
+			}
+		}
+	}
+	cands := append(formPost, others...)
+	if len(cands) < 2 {
+		return "concurrent callbacks: fewer than two pending requests"
+	}
+	pair := []string{cands[0], cands[1]}
+	if len(formPost) >= 2 {
+		i := ch.Int(len(formPost))
+		j := (i + 1 + ch.Int(len(formPost)-1)) % len(formPost)
+		pair = []string{formPost[i], formPost[j]}
+	}
+	var gops []*groupOp
+	var snaps []*world.AuthReq
+	for _, id := range pair {
+		_ = w.Store.CompleteLogin(id, "u1")
+		snaps = append(snaps, w.Store.AuthReqSnapshot(id))
+		gops = append(gops, &groupOp{label: "callback " + id, do: func(ctx context.Context) *world.Resp {
+			req, _ := http.NewRequestWithContext(ctx, "GET", w.Issuer+"/authorize/callback?id="+url.QueryEscape(id), nil)
+			return w.DoRaw(req)
+		}})
+	}
+	trace := runGroup(w, c.o, fmt.Sprintf("callbacks:%d", c.step), gops, 0)
+	c.o.Probe("concurrent-callback-pairs")
+	out := fmt.Sprintf("concurrent callbacks %v %v:", pair, trace)
+	for i, g := range gops {
+		if g.resp == nil || g.resp.Ex == nil || snaps[i] == nil {
+			continue
+		}
+		desc := fmt.Sprintf("callback id=%s served concurrently with id=%s (schedule %v) -> %d", pair[i], pair[1-i], trace, statusOf(g.resp))
+		c.checkResponse(desc, g.resp, w.Store.Clients[snaps[i].ClientID], snaps[i].RedirectURI, string(snaps[i].ResponseType), false)
+		out += fmt.Sprintf(" %s=%d", pair[i], statusOf(g.resp))
+	}
+	// both requests are used up
+	c.ids = slices.DeleteFunc(c.ids, func(x string) bool { return x == pair[0] || x == pair[1] })
+	return out
+}
+
 func RunC03(t *testing.T, spec kernel.Spec) *kernel.Outcome {
 	o := inBubble(t, spec, func(o *kernel.Outcome, tape *kernel.Tape) {
 		w, err := world.NewStd(o, tape, world.StdOptions{Router: spec.Params["router"]})
@@ -499,6 +552,9 @@ func RunC03(t *testing.T, spec kernel.Spec) *kernel.Outcome {
 		n := 40 + tape.Sub("cfg").Int(40)
 		steps(o, tape, n, func(i int, ch *kernel.Chooser) string {
 			c.step = i
+			if ch.Bool(1, 12) {
+				return c.concurrentCallbacks(ch)
+			}
 			if ch.Bool(3, 4) {
 				return c.authorize(ch)
 			}
